@@ -22,8 +22,8 @@ from checks.worlda import (WorldA, draw_knobs, draw_sched, draw_func_stalls, ins
 
 APP_ID = 16777251
 
-POINTS_CLIENT = ["connecting", "cer_sent", "open_idle", "open_traffic", "open_parked", "closing"]
-POINTS_SERVER = ["accepted_no_cer", "open_idle", "open_traffic", "open_parked", "closing"]
+POINTS_CLIENT = ["connecting", "cer_sent", "open_idle", "open_traffic", "open_parked", "open_backlog", "closing"]
+POINTS_SERVER = ["accepted_no_cer", "open_idle", "open_traffic", "open_parked", "open_backlog", "closing"]
 CAUSES = {
     "connecting": ["refused", "local_close", "never"],
     "cer_sent": ["peer_eof", "peer_rst", "local_close", "non_cea", "local_close_cross_cea"],
@@ -31,6 +31,7 @@ CAUSES = {
     "open_idle": ["local_close", "peer_dpr", "peer_eof", "peer_rst"],
     "open_traffic": ["local_close", "peer_dpr", "peer_eof", "peer_rst"],
     "open_parked": ["local_close", "peer_dpr", "peer_eof", "peer_rst"],
+    "open_backlog": ["local_close", "local_close", "peer_dpr", "peer_eof", "peer_rst"],
     "closing": ["peer_eof", "peer_rst", "peer_dpa_late", "peer_dpr_cross"],
 }
 
@@ -38,8 +39,8 @@ CAUSES = {
 class C08(Check):
     prop = "C08"
     quick_runs = 96
-    thorough_runs = 4000
-    run_wall = 150.0
+    thorough_runs = 3000
+    run_wall = 600.0
     rule = ("one run = one connection brought to a seeded point of its life (connecting, CER sent, accepted without CER, "
             "Open idle / with queued traffic / with a consumer parked in get_message, Closing), one termination cause "
             "(local close, peer DPR, EOF, reset, refused connect, connect that never completes, non-CEA, DPR crossing a "
@@ -58,6 +59,10 @@ class C08(Check):
         cause = rng.choice(CAUSES[point])
         knobs = draw_knobs(rng)
         knobs["SLEEP_TIMER"] = rng.choice([0.1, 0.3, 1.0])
+        if point == "open_backlog":
+            # outbound messages queued faster than one batch per tick can carry them away
+            knobs["SEND_BUFFER_MAXIMUM_SIZE"] = rng.choice([600, 1200, 2400])
+            knobs["STATE_MACHINE_TICKER"] = rng.choice([0.005, 0.01, 0.02])
         sched = draw_sched(rng)
         # a connect that never completes is spun on by test_connection(): bound the simulated kernel's
         # connect timeout by what the spin costs in steps at this run's CPU quantum
@@ -88,7 +93,7 @@ class C08(Check):
                 c = copy.deepcopy(scn)
                 c[k] = v
                 yield c
-        if scn["point"] in ("open_traffic", "open_parked"):
+        if scn["point"] in ("open_traffic", "open_parked", "open_backlog"):
             c = copy.deepcopy(scn)
             c["point"] = "open_idle"
             yield c
@@ -163,7 +168,7 @@ class C08(Check):
                 ok = w.wait_state(("I-Open", "R-Open"), 20.0)
             if not ok:
                 return
-            if point in ("open_traffic", "open_parked", "closing", "open_idle"):
+            if point in ("open_traffic", "open_parked", "closing", "open_idle", "open_backlog"):
                 if point == "open_parked" or (point != "open_idle" and sim.choose("consumer", 2)):
                     consumer = w.start_consumer()
             if point == "open_traffic":
@@ -178,6 +183,15 @@ class C08(Check):
                             OriginRealmAVP(NODE_REALM), DestinationRealmAVP(PEER_REALM)]))
                 if scn["traffic_out"]:
                     w.call("submitter", submit)
+            if point == "open_backlog":
+                from bromelia.base import DiameterAVP
+
+                def flood():
+                    w.node.send_messages([DiameterRequest(application_id=APP_ID, command_code=316, avps=[
+                        SessionIdAVP(("n;2;%d" % i).encode()), OriginHostAVP(NODE_HOST), OriginRealmAVP(NODE_REALM),
+                        DestinationRealmAVP(PEER_REALM), DiameterAVP(code=99998, data=bytes(300))]) for i in range(12)])
+                fl = w.call("flooder", flood)
+                sim.wait_until(lambda: fl["t1"] is not None, 2.0, poll=0.0002)
             if point == "open_parked":
                 # let the consumer park
                 sim.wait_until(lambda: consumer["thread"].state == "blocked", 2.0, poll=0.001)
@@ -209,13 +223,47 @@ class C08(Check):
                     if not fired:
                         fire()
                     sim.probe("anchored_cause")
+            if scn.get("anchor") and cause in ("local_close", "local_close_cross_cea") and anchored is None:
+                # anchored local close: the application's close() (and, for the crossing cause, the peer's
+                # CEA) lands when a library thread is exactly k steps further, and that thread is
+                # descheduled for a moment so that the close really falls inside the window
+                gate = {"thread": None, "open": False}
+
+                def closer_body():
+                    gate["thread"] = sim.cur
+                    while not gate["open"]:
+                        sim.block(("gate",), 5.0)
+                        if sim.halted:
+                            return
+                    return w.node.close()
+                closer = w.call("close", closer_body)
+                sim.sleep(0.0002)
+                cers = [m for m in w.peer.rx if m["code"] == C.CE and C.is_request(m)]
+
+                def fire_local():
+                    gate["open"] = True
+                    if cause == "local_close_cross_cea" and cers:
+                        w.peer.send(C.cea(PEER_HOST, PEER_REALM, hbh=cers[-1]["hbh"], e2e=cers[-1]["e2e"]))
+                    for t in sim.threads:
+                        if scn["anchor"]["thread"] in t.role and t.state not in ("done", "new") and t.library:
+                            sim.stalled[t.tid] = max(sim.stalled.get(t.tid, 0.0), sim.now + 0.02)
+                            sim.stalls_fired += 1
+                            break
+                    if gate["thread"] is not None and gate["thread"].state == "blocked":
+                        sim.wake(gate["thread"])
+                if sim.add_step_trigger(scn["anchor"]["thread"], scn["anchor"]["k"], fire_local):
+                    sim.wait_until(lambda: gate["open"], 5.0, poll=0.0005)
+                if not gate["open"]:
+                    fire_local()
+                anchored = [sim.now]
+                sim.probe("anchored_local_close")
             if anchored is None and scn["cause_delay"]:
                 sim.sleep(scn["cause_delay"])
             sim.func_calls.clear()
             install_func_stalls(sim, scn.get("func_stalls"))
             late = scn.get("late_consumer")
             late_rec = []
-            if late and point in ("open_idle", "open_traffic", "open_parked", "closing"):
+            if late and point in ("open_idle", "open_traffic", "open_parked", "open_backlog", "closing"):
                 def start_late():
                     rec = w.start_consumer("late_consumer")
                     th = rec["thread"]
